@@ -113,16 +113,18 @@ def run(ctx):
             else:
                 ctx.violation("monitor", "reported index %r is neither the definition %r nor the known scalar-centre value %r" % (got, d_, f_), {"case": case})
         # (c) translation: the definition is invariant, the implementation (known finding) is not; on CENTRED data they agree
-        for j in range(ctx.budget(6, 30)):
+        for j in range(ctx.budget(12, 40)):
             K = 2 + j % 2; T = 12; d = 2
             labels = [int(x) for x in ([k for k in range(K)] * 2 + list(rng.integers(0, K, size=T - 2 * K)))]
             data = rng.normal(size=(T, d))
-            data = data - data.mean(axis=0) + 3.0          # every column has the same mean: scalar centre = centroid
+            base = [3.0, 1e3, 1e5, 1e7][j % 4]
+            data = data - data.mean(axis=0)
+            data = data - data.mean(axis=0) + base          # every column has the same mean (up to rounding): scalar centre = centroid
             got = impl_value(data, labels, K, biased=bool(j % 2))
             ref = ch_def_np(data, labels, K)
             ctx.count("centred")
-            if abs(got - ref) > 1e-9 * max(1.0, abs(ref)):
-                ctx.violation("monitor", "on data whose columns share one mean the index %r differs from the definition %r" % (got, ref),
+            if abs(got - ref) > 1e-6 * max(1.0, abs(ref)):
+                ctx.violation("monitor", "on data whose columns share one mean (baseline %g) the index %r differs from the definition %r" % (base, got, ref),
                               {"labels": labels, "data_hex": [[float(v).hex() for v in row] for row in data]})
     core.anchored_check(ctx, ANCHORS, cov)
     ctx.sample({"K": meta[0][0]["K"], "labels": meta[0][0]["labels"], "data": meta[0][0]["data"][:4]})
